@@ -30,6 +30,10 @@ type FireAlt struct {
 	Partner ThreadID // rendezvous partner (0 = none)
 	PCase   int      // partner's select case index (-1 plain recv)
 	Desc    string
+	// timed mode (Engine.Timed): see annotateTimed
+	Frozen    bool         // a timer receive that may not let time pass (something else can run now)
+	OtherDues []*term.Term // deadlines of the other timers somebody waits for: this one fires no later
+	NotDue    []*term.Term // default case of a non-blocking select: these timers have not expired yet
 }
 
 func (e *Engine) setPending(st *State, th *Thread, op *VisOp) {
@@ -326,11 +330,84 @@ func (e *Engine) alts(st *State, th *Thread) []FireAlt {
 		}
 		if !anyReady && !op.Blocking {
 			out = append(out, FireAlt{Thread: th.ID, Case: -1, PCase: -1})
+		} else if e.Timed && !op.Blocking {
+			// timed mode: a non-blocking select whose only ready cases are timers takes the default when none has expired
+			var dues []*term.Term
+			onlyTimers := true
+			for _, a := range out {
+				if d := e.timerDue(st, op, a); d != nil {
+					dues = append(dues, d)
+				} else {
+					onlyTimers = false
+				}
+			}
+			if onlyTimers && len(dues) > 0 {
+				for i := range out {
+					out[i].Frozen = true
+				}
+				out = append(out, FireAlt{Thread: th.ID, Case: -1, PCase: -1, NotDue: dues})
+			}
 		}
 		return out
 	}
 	abort("INTERNAL", "alts: op kind %d", op.Kind)
 	return nil
+}
+
+// timerDue: the deadline of the timer channel alternative a of op receives from (nil: not a timer receive).
+func (e *Engine) timerDue(st *State, op *VisOp, a FireAlt) *term.Term {
+	if a.Partner != 0 || op == nil {
+		return nil
+	}
+	var ch ChanRef
+	switch op.Kind {
+	case VRecv:
+		ch = op.Ch
+	case VSelect:
+		if a.Case < 0 || op.Cases[a.Case].Send {
+			return nil
+		}
+		ch = op.Cases[a.Case].Ch
+	default:
+		return nil
+	}
+	if ch.Obj == 0 {
+		return nil
+	}
+	o := st.obj(ch.Obj)
+	if o.TimerAt == nil || len(o.Buf) == 0 {
+		return nil
+	}
+	return o.TimerAt
+}
+
+// annotateTimed implements the timed semantics (gosym run --timed): computation takes no time, so (1) a timer
+// whose deadline lies in the future fires only when nothing else can run, and (2) of several awaited timers the
+// earliest fires first. The constraints are imposed when the alternative is fired (timerFired).
+func (e *Engine) annotateTimed(st *State, alts []FireAlt) {
+	dues := make([]*term.Term, len(alts))
+	nonTimer := 0
+	for i, a := range alts {
+		if ti := st.threadIdx(a.Thread); ti >= 0 {
+			dues[i] = e.timerDue(st, st.Threads[ti].Pending, a)
+		}
+		if dues[i] == nil && len(a.NotDue) == 0 {
+			nonTimer++
+		}
+	}
+	for i := range alts {
+		if dues[i] == nil {
+			continue
+		}
+		if nonTimer > 0 {
+			alts[i].Frozen = true
+		}
+		for j := range alts {
+			if j != i && dues[j] != nil && dues[j] != dues[i] {
+				alts[i].OtherDues = append(alts[i].OtherDues, dues[j])
+			}
+		}
+	}
 }
 
 // decideCell decides a Boolean sync cell and makes it concrete in the state.
@@ -507,6 +584,15 @@ func (e *Engine) fireLocal(st *State, th *Thread, op *VisOp, selCase int) {
 		}
 	case VSelect:
 		if selCase < 0 {
+			if e.Timed {
+				last := st.Clock
+				if last == nil {
+					last = term.BVC(64, 0)
+				}
+				for _, d := range e.curAlt.NotDue {
+					e.assumeIn(st, term.BVCmp(term.OpULt, last, d))
+				}
+			}
 			e.deliver(st, th, op, selectResult(op, -1, false, nil))
 			return
 		}
@@ -589,6 +675,7 @@ func (e *Engine) fireInline(st *State, th *Thread, op *VisOp) {
 	if a.Partner != 0 {
 		abort("INTERNAL", "rendezvous inside an atomic section")
 	}
+	e.curAlt = a
 	e.fireLocal(st, th, op, a.Case)
 }
 
@@ -601,6 +688,7 @@ func (e *Engine) fire(st *State, a FireAlt) {
 	th.Blocks++
 	th.Open = nil
 	e.curThread, e.curInstr = th.ID, op.Instr
+	e.curAlt = a
 	if a.Partner == 0 {
 		e.fireLocal(st, th, op, a.Case)
 		return
@@ -1062,6 +1150,9 @@ func (x *Explorer) expand(st *State) {
 		e.terminal(st)
 		return
 	}
+	if e.Timed {
+		e.annotateTimed(st, alts)
+	}
 	for i, a := range alts {
 		var s *State
 		if i == len(alts)-1 {
@@ -1324,5 +1415,23 @@ func (e *Engine) timerFired(st *State, o *Object) {
 	if o.TimerAt == nil || len(o.Buf) == 0 {
 		return
 	}
-	e.advanceClock(st, o.TimerAt)
+	if !e.Timed {
+		e.advanceClock(st, o.TimerAt)
+		return
+	}
+	// timed mode: the timer fires exactly when it is due (or now, if that moment has passed)
+	last := st.Clock
+	if last == nil {
+		last = term.BVC(64, 0)
+	}
+	a := e.curAlt
+	if a.Frozen {
+		e.assumeIn(st, term.BVCmp(term.OpULe, o.TimerAt, last)) // time cannot pass: it must have expired already
+		return
+	}
+	now := term.Ite(term.BVCmp(term.OpULe, last, o.TimerAt), o.TimerAt, last)
+	for _, d := range a.OtherDues {
+		e.assumeIn(st, term.BVCmp(term.OpULe, now, d)) // an earlier timer somebody waits for fires first
+	}
+	st.Clock = now
 }
